@@ -585,6 +585,8 @@ def run_check(prop: str, tier: str, seed: int, runs: int | None = None, workers:
                 "new_violation_sites": len(violations_new) + len(unshrunk_sites),
                 "known_findings_seen": dict(known_seen),
                 "known_findings_replayed": [l for l in known_lines],
+                "fixed_regression_cases_replayed": len(known_futs),
+                "fixed_regression_cases_failing": sum(1 for _s, _p, w in violations_new if w.startswith("fixed finding")),
                 "determinism_selftest": selftest,
                 "components": _components_from_worker(pools),
                 "workers": workers,
